@@ -2252,7 +2252,7 @@ package sftp
 //@   ensures st.Mode == fromFileMode(os.FileMode(ghost.gMode))
 //@   ensures st.Atime == st.Mtime
 // (C17: the size and the mode word put on the wire are the FileInfo's own, converted by fromFileMode)
-//@   property C06, C17
+//@   property C06, C17, C16
 //@   results flags, st
 //@   requires fi != nil
 //@   ensures st != nil
